@@ -71,7 +71,7 @@ func (m *fakeMeta) ShowShards(db string, rp string, mst string) models.Rows {
 func (m *fakeMeta) TagArrayEnabled(db string) bool { m.rec.lookup("TagArrayEnabled"); return false }
 func (m *fakeMeta) DataNode(id uint64) (*meta2.DataNode, error) {
 	m.rec.lookup("DataNode")
-	return nil, errNotExecuted
+	return &meta2.DataNode{NodeInfo: meta2.NodeInfo{ID: id, Role: meta2.NodeDefault}}, nil
 }
 func (m *fakeMeta) DataNodes() ([]meta2.DataNode, error) { m.rec.lookup("DataNodes"); return nil, nil }
 func (m *fakeMeta) SqlNodes() ([]meta2.DataNode, error)  { m.rec.lookup("SqlNodes"); return nil, nil }
